@@ -1,0 +1,535 @@
+//! C05/C06 adapter: the real `TransportManager` behind the line protocol, with a scripted
+//! `Transport` that records every call made on it and yields the events the operations inject.
+//!
+//! Declared as a child module of `transport::manager` so that it can read the manager's private
+//! bookkeeping (`peers`, `pending_connections`, `connection_limits`, ...) without accessors.
+//!
+//! Addresses use a component syntax (`ip4.5/tcp.5/p2p.1`, `-` for the empty address); peers are
+//! `crate::verif::peer(i)` (`0` is the local peer); connection ids are named by the labels the
+//! operations introduce (`as=c3`, or the first use of a label in an `ev` operation, which takes a
+//! fresh id from the shared counter like a transport does).
+
+use super::{
+    limits::ConnectionLimitsConfig, peer_state::{PeerState, SecondaryOrDialing}, SupportedTransport,
+    TransportManager, TransportManagerBuilder, TransportManagerEvent,
+};
+use crate::{
+    error::{AddressError, DialError, Error, NegotiationError},
+    transport::{Endpoint, Transport, TransportEvent},
+    types::ConnectionId,
+    verif::{peer, peer_index, VerifBox},
+    PeerId,
+};
+
+use futures::{future::BoxFuture, FutureExt, Stream};
+use multiaddr::{Multiaddr, Protocol};
+use tokio::sync::oneshot;
+
+use std::{
+    collections::{HashMap, VecDeque},
+    net::{Ipv4Addr, Ipv6Addr},
+    pin::Pin,
+    sync::{atomic::Ordering, Arc, Mutex},
+    task::{Context, Poll},
+};
+
+#[derive(Default)]
+struct Shared {
+    events: VecDeque<TransportEvent>,
+    calls: Vec<(String, ConnectionId, Vec<Multiaddr>)>,
+    accept_fail: bool,
+    accepts: HashMap<ConnectionId, VecDeque<oneshot::Sender<crate::Result<()>>>>,
+}
+
+struct Scripted(Arc<Mutex<Shared>>);
+
+impl Scripted {
+    fn record(&self, what: &str, id: ConnectionId, addresses: Vec<Multiaddr>) {
+        self.0.lock().unwrap().calls.push((what.to_string(), id, addresses));
+    }
+}
+
+impl Stream for Scripted {
+    type Item = TransportEvent;
+
+    fn poll_next(self: Pin<&mut Self>, _: &mut Context<'_>) -> Poll<Option<Self::Item>> {
+        match self.0.lock().unwrap().events.pop_front() {
+            Some(event) => Poll::Ready(Some(event)),
+            None => Poll::Pending,
+        }
+    }
+}
+
+impl Transport for Scripted {
+    fn dial(&mut self, id: ConnectionId, address: Multiaddr) -> crate::Result<()> {
+        self.record("dial", id, vec![address]);
+        Ok(())
+    }
+
+    fn accept(&mut self, id: ConnectionId) -> crate::Result<BoxFuture<'static, crate::Result<()>>> {
+        self.record("accept", id, vec![]);
+        let mut shared = self.0.lock().unwrap();
+        if shared.accept_fail {
+            shared.accept_fail = false;
+            return Err(Error::ConnectionDoesntExist(id));
+        }
+        let (tx, rx) = oneshot::channel();
+        shared.accepts.entry(id).or_default().push_back(tx);
+        Ok(Box::pin(async move { rx.await.unwrap_or(Err(Error::EssentialTaskClosed)) }))
+    }
+
+    fn accept_pending(&mut self, id: ConnectionId) -> crate::Result<()> {
+        self.record("acceptp", id, vec![]);
+        Ok(())
+    }
+
+    fn reject_pending(&mut self, id: ConnectionId) -> crate::Result<()> {
+        self.record("rejectp", id, vec![]);
+        Ok(())
+    }
+
+    fn reject(&mut self, id: ConnectionId) -> crate::Result<()> {
+        self.record("reject", id, vec![]);
+        Ok(())
+    }
+
+    fn open(&mut self, id: ConnectionId, addresses: Vec<Multiaddr>) -> crate::Result<()> {
+        self.record("open", id, addresses);
+        Ok(())
+    }
+
+    fn negotiate(&mut self, id: ConnectionId) -> crate::Result<()> {
+        self.record("negotiate", id, vec![]);
+        Ok(())
+    }
+
+    fn cancel(&mut self, id: ConnectionId) {
+        self.record("cancel", id, vec![]);
+    }
+}
+
+pub struct ManagerBox {
+    rt: tokio::runtime::Runtime,
+    manager: Option<TransportManager>,
+    shared: Arc<Mutex<Shared>>,
+    labels: HashMap<String, ConnectionId>,
+    names: HashMap<ConnectionId, String>,
+}
+
+impl ManagerBox {
+    pub fn new() -> Self {
+        Self {
+            rt: tokio::runtime::Builder::new_current_thread().enable_all().build().expect("runtime"),
+            manager: None,
+            shared: Arc::new(Mutex::new(Shared::default())),
+            labels: HashMap::new(),
+            names: HashMap::new(),
+        }
+    }
+
+    fn local(&self) -> PeerId {
+        self.manager.as_ref().expect("limits first").local_peer_id
+    }
+
+    fn peer_of(&self, i: u64) -> PeerId {
+        if i == 0 {
+            self.local()
+        } else {
+            peer(i)
+        }
+    }
+
+    fn peer_name(&self, p: &PeerId) -> String {
+        if *p == self.local() {
+            return "0".into();
+        }
+        peer_index(p).map(|i| i.to_string()).unwrap_or_else(|| "?".into())
+    }
+
+    fn parse_addr(&self, s: &str) -> Option<Multiaddr> {
+        let mut address = Multiaddr::empty();
+        if s == "-" {
+            return Some(address);
+        }
+        for comp in s.split('/') {
+            let (kind, arg) = match comp.split_once('.') {
+                Some((k, a)) => (k, a.parse::<u64>().ok()?),
+                None => (comp, 0),
+            };
+            let name = || std::borrow::Cow::Owned(format!("h{arg}.example"));
+            let protocol = match kind {
+                "ip4" => Protocol::Ip4(match arg {
+                    0 => Ipv4Addr::UNSPECIFIED,
+                    n if n < 256 => Ipv4Addr::new(10, 0, 0, n as u8),
+                    n => Ipv4Addr::new(8, 8, (n >> 8) as u8, n as u8),
+                }),
+                "ip6" => Protocol::Ip6(match arg {
+                    0 => Ipv6Addr::UNSPECIFIED,
+                    n => Ipv6Addr::new(0xfd00, 0, 0, 0, 0, 0, 0, n as u16),
+                }),
+                "dns" => Protocol::Dns(name()),
+                "dns4" => Protocol::Dns4(name()),
+                "dns6" => Protocol::Dns6(name()),
+                "tcp" => Protocol::Tcp(arg as u16),
+                "udp" => Protocol::Udp(arg as u16),
+                "ws" => Protocol::Ws(std::borrow::Cow::Borrowed("/")),
+                "wss" => Protocol::Wss(std::borrow::Cow::Borrowed("/")),
+                "quicV1" => Protocol::QuicV1,
+                "p2p" => Protocol::P2p(self.peer_of(arg).into()),
+                "other" => match arg {
+                    0 => Protocol::P2pCircuit,
+                    1 => Protocol::Tls,
+                    2 => Protocol::Http,
+                    3 => Protocol::Utp,
+                    n => Protocol::Memory(n),
+                },
+                _ => return None,
+            };
+            address.push(protocol);
+        }
+        Some(address)
+    }
+
+    fn show_addr(&self, address: &Multiaddr) -> String {
+        let host = |s: &str| s.trim_start_matches('h').trim_end_matches(".example").to_string();
+        let comps: Vec<String> = address
+            .iter()
+            .map(|p| match p {
+                Protocol::Ip4(a) => {
+                    let o = a.octets();
+                    if o[0] == 8 {
+                        format!("ip4.{}", ((o[2] as u64) << 8) | o[3] as u64)
+                    } else {
+                        format!("ip4.{}", o[3])
+                    }
+                }
+                Protocol::Ip6(a) => format!("ip6.{}", a.segments()[7]),
+                Protocol::Dns(n) => format!("dns.{}", host(&n)),
+                Protocol::Dns4(n) => format!("dns4.{}", host(&n)),
+                Protocol::Dns6(n) => format!("dns6.{}", host(&n)),
+                Protocol::Tcp(port) => format!("tcp.{port}"),
+                Protocol::Udp(port) => format!("udp.{port}"),
+                Protocol::Ws(_) => "ws".into(),
+                Protocol::Wss(_) => "wss".into(),
+                Protocol::QuicV1 => "quicV1".into(),
+                Protocol::P2p(id) => match PeerId::from_multihash(id) {
+                    Ok(p) => format!("p2p.{}", self.peer_name(&p)),
+                    Err(_) => "p2p.?".into(),
+                },
+                Protocol::P2pCircuit => "other.0".into(),
+                Protocol::Tls => "other.1".into(),
+                Protocol::Http => "other.2".into(),
+                Protocol::Utp => "other.3".into(),
+                Protocol::Memory(n) => format!("other.{n}"),
+                _ => "other.?".into(),
+            })
+            .collect();
+        if comps.is_empty() {
+            "-".into()
+        } else {
+            comps.join("/")
+        }
+    }
+
+    fn conn_name(&self, id: ConnectionId) -> String {
+        self.names.get(&id).cloned().unwrap_or_else(|| "c?".into())
+    }
+
+    fn bind(&mut self, label: &str, id: ConnectionId) {
+        self.labels.insert(label.to_string(), id);
+        self.names.insert(id, label.to_string());
+    }
+
+    /// The id behind a label; an unknown label takes a fresh id from the shared counter.
+    fn conn_of(&mut self, label: &str) -> ConnectionId {
+        if let Some(id) = self.labels.get(label) {
+            return *id;
+        }
+        let manager = self.manager.as_ref().expect("limits first");
+        let id = ConnectionId::from(manager.next_connection_id.fetch_add(1usize, Ordering::Relaxed));
+        self.bind(label, id);
+        id
+    }
+
+    fn dial_error(kind: &str) -> DialError {
+        match kind {
+            "a" => DialError::AddressError(AddressError::InvalidProtocol),
+            "n" => DialError::NegotiationError(NegotiationError::StateMismatch),
+            _ => DialError::Timeout,
+        }
+    }
+
+    fn error_kind(error: &DialError) -> &'static str {
+        match error {
+            DialError::Timeout => "t",
+            DialError::AddressError(_) => "a",
+            DialError::NegotiationError(_) => "n",
+            _ => "d",
+        }
+    }
+
+    fn parse_errors(&self, args: &[&str]) -> Option<Vec<(Multiaddr, DialError)>> {
+        let mut errors = Vec::new();
+        for arg in args {
+            if let Some(list) = arg.strip_prefix("errs=") {
+                for item in list.split(',').filter(|s| !s.is_empty()) {
+                    let (address, kind) = item.split_once('=')?;
+                    errors.push((self.parse_addr(address)?, Self::dial_error(kind)));
+                }
+            }
+        }
+        Some(errors)
+    }
+
+    fn show_state(&self, state: &PeerState) -> Option<String> {
+        Some(match state {
+            PeerState::Disconnected { dial_record: None } => return None,
+            PeerState::Disconnected { dial_record: Some(record) } =>
+                format!("D({})", self.conn_name(record.connection_id)),
+            PeerState::Dialing { dial_record } => format!("G({})", self.conn_name(dial_record.connection_id)),
+            PeerState::Opening { connection_id, .. } => format!("O({})", self.conn_name(*connection_id)),
+            PeerState::Connected { record, secondary } => match secondary {
+                None => format!("C({})", self.conn_name(record.connection_id)),
+                Some(SecondaryOrDialing::Secondary(second)) => format!(
+                    "C({}+{})",
+                    self.conn_name(record.connection_id),
+                    self.conn_name(second.connection_id)
+                ),
+                Some(SecondaryOrDialing::Dialing(second)) => format!(
+                    "C({}~{})",
+                    self.conn_name(record.connection_id),
+                    self.conn_name(second.connection_id)
+                ),
+            },
+        })
+    }
+
+    /// Poll `next()` until it is pending, then print everything observable.
+    fn observe(&mut self, result: String, label: Option<&str>) -> String {
+        let mut events = Vec::new();
+        {
+            let manager = self.manager.as_mut().expect("limits first");
+            self.rt.block_on(async {
+                while let Some(Some(event)) = manager.next().now_or_never() {
+                    events.push(event);
+                }
+            });
+        }
+        let calls: Vec<_> = std::mem::take(&mut self.shared.lock().unwrap().calls);
+        // a label given with `as=` names the id of the attempt this operation started
+        if let Some(label) = label {
+            if let Some((_, id, _)) = calls.iter().find(|(what, _, _)| what == "dial" || what == "open") {
+                self.bind(label, *id);
+            }
+        }
+        let calls: Vec<String> = calls
+            .iter()
+            .map(|(what, id, addresses)| {
+                let mut shown: Vec<String> = addresses.iter().map(|a| self.show_addr(a)).collect();
+                shown.sort();
+                if what == "dial" || what == "open" {
+                    format!("{what}:{}:{}", self.conn_name(*id), shown.join("|"))
+                } else {
+                    format!("{what}:{}", self.conn_name(*id))
+                }
+            })
+            .collect();
+        let events: Vec<String> = events
+            .iter()
+            .map(|event| match event {
+                TransportEvent::ConnectionEstablished { peer, endpoint } => format!(
+                    "est:{}:{}:{}:{}",
+                    self.peer_name(peer),
+                    self.conn_name(endpoint.connection_id()),
+                    if endpoint.is_listener() { "listener" } else { "dialer" },
+                    self.show_addr(endpoint.address())
+                ),
+                TransportEvent::ConnectionClosed { peer, connection_id } =>
+                    format!("closed:{}:{}", self.peer_name(peer), self.conn_name(*connection_id)),
+                TransportEvent::DialFailure { connection_id, address, error } => format!(
+                    "dialfail:{}:{}:{}",
+                    self.conn_name(*connection_id),
+                    self.show_addr(address),
+                    Self::error_kind(error)
+                ),
+                TransportEvent::OpenFailure { connection_id, errors } => {
+                    let items: Vec<String> = errors
+                        .iter()
+                        .map(|(a, e)| format!("{}={}", self.show_addr(a), Self::error_kind(e)))
+                        .collect();
+                    format!("openfail:{}:{}", self.conn_name(*connection_id), items.join("|"))
+                }
+                _ => "other".into(),
+            })
+            .collect();
+        let manager = self.manager.as_ref().expect("limits first");
+        let mut states: Vec<(u64, String)> = manager
+            .peers
+            .read()
+            .iter()
+            .filter_map(|(p, context)| {
+                let shown = self.show_state(&context.state)?;
+                let index = self.peer_name(p).parse::<u64>().unwrap_or(u64::MAX);
+                Some((index, shown))
+            })
+            .collect();
+        states.sort();
+        let states: Vec<String> = states.iter().map(|(i, s)| format!("{i}:{s}")).collect();
+        let dash = |v: Vec<String>| if v.is_empty() { "-".to_string() } else { v.join(" ") };
+        format!(
+            "{result} ; calls={} ; ev={} ; st={} ; pend={} acc={} lim={}/{} oe={}",
+            dash(calls),
+            dash(events),
+            dash(states),
+            manager.pending_connections.len(),
+            manager.pending_accept.len(),
+            manager.connection_limits.verif_counts().0,
+            manager.connection_limits.verif_counts().1,
+            manager.opening_errors.len(),
+        )
+    }
+
+    fn api_result(result: crate::Result<()>) -> String {
+        match result {
+            Ok(()) => "ok".into(),
+            Err(Error::ConnectionLimit(_)) => "err:limit".into(),
+            Err(Error::TriedToDialSelf) => "err:self".into(),
+            Err(Error::AlreadyConnected) => "err:connected".into(),
+            Err(Error::NoAddressAvailable(_)) => "err:noaddr".into(),
+            Err(Error::AddressError(AddressError::PeerIdMissing)) => "err:nopeerid".into(),
+            Err(Error::TransportNotSupported(_)) => "err:unsupported".into(),
+            Err(_) => "err:other".into(),
+        }
+    }
+
+    fn inject(&mut self, event: TransportEvent) {
+        self.shared.lock().unwrap().events.push_back(event);
+    }
+}
+
+impl VerifBox for ManagerBox {
+    fn step(&mut self, line: &str) -> String {
+        let line = line.split(" -> ").next().unwrap_or(line);
+        let line = line.trim_end_matches(" !flush");
+        let t: Vec<&str> = line.split_whitespace().collect();
+        let limit = |s: &str| -> Option<Option<usize>> {
+            if s == "none" {
+                Some(None)
+            } else {
+                s.parse().ok().map(Some)
+            }
+        };
+        if let ["limits", max_in, max_out] = t.as_slice() {
+            let (Some(max_in), Some(max_out)) = (limit(max_in), limit(max_out)) else {
+                return "bad-op".into();
+            };
+            let config = ConnectionLimitsConfig::default()
+                .max_incoming_connections(max_in)
+                .max_outgoing_connections(max_out);
+            let mut manager =
+                TransportManagerBuilder::new().with_connection_limits_config(config).build();
+            self.shared = Arc::new(Mutex::new(Shared::default()));
+            manager.register_transport(SupportedTransport::Tcp, Box::new(Scripted(self.shared.clone())));
+            manager.register_listen_address("/ip4/10.0.0.99/tcp/99".parse().expect("address"));
+            self.manager = Some(manager);
+            self.labels.clear();
+            self.names.clear();
+            return "ok".into();
+        }
+        if self.manager.is_none() {
+            return "bad-op".into();
+        }
+        let label = t.iter().find_map(|a| a.strip_prefix("as="));
+        match t.as_slice() {
+            ["addknown", p, addresses] => {
+                let Ok(p) = p.parse::<u64>() else { return "bad-op".into() };
+                let mut list = Vec::new();
+                for a in addresses.split(',') {
+                    let Some(a) = self.parse_addr(a) else { return "bad-op".into() };
+                    list.push(a);
+                }
+                let who = self.peer_of(p);
+                let n = self.manager.as_mut().unwrap().add_known_address(who, list.into_iter());
+                self.observe(format!("n={n}"), None)
+            }
+            ["dial", p, ..] => {
+                let Ok(p) = p.parse::<u64>() else { return "bad-op".into() };
+                let who = self.peer_of(p);
+                let manager = self.manager.as_mut().unwrap();
+                let result = self.rt.block_on(manager.dial(who));
+                self.observe(Self::api_result(result), label)
+            }
+            ["dialaddr", address, ..] => {
+                let Some(address) = self.parse_addr(address) else { return "bad-op".into() };
+                let manager = self.manager.as_mut().unwrap();
+                let result = self.rt.block_on(manager.dial_address(address));
+                self.observe(Self::api_result(result), label)
+            }
+            ["ev", "established", p, conn, address, dir, rest @ ..] => {
+                let (Ok(p), Some(address)) = (p.parse::<u64>(), self.parse_addr(address)) else {
+                    return "bad-op".into();
+                };
+                let id = self.conn_of(conn);
+                let endpoint = match *dir {
+                    "dialer" => Endpoint::dialer(address, id),
+                    "listener" => Endpoint::listener(address, id),
+                    _ => return "bad-op".into(),
+                };
+                self.shared.lock().unwrap().accept_fail = rest.contains(&"acceptfail");
+                let who = self.peer_of(p);
+                self.inject(TransportEvent::ConnectionEstablished { peer: who, endpoint });
+                let out = self.observe("-".into(), None);
+                self.shared.lock().unwrap().accept_fail = false;
+                out
+            }
+            ["ev", "opened", conn, address, rest @ ..] => {
+                let (Some(address), Some(errors)) = (self.parse_addr(address), self.parse_errors(rest)) else {
+                    return "bad-op".into();
+                };
+                let id = self.conn_of(conn);
+                self.inject(TransportEvent::ConnectionOpened { connection_id: id, address, errors });
+                self.observe("-".into(), None)
+            }
+            ["ev", "openfail", conn, rest @ ..] => {
+                let Some(errors) = self.parse_errors(rest) else { return "bad-op".into() };
+                let id = self.conn_of(conn);
+                self.inject(TransportEvent::OpenFailure { connection_id: id, errors });
+                self.observe("-".into(), None)
+            }
+            ["ev", "dialfail", conn, address, kind] => {
+                let Some(address) = self.parse_addr(address) else { return "bad-op".into() };
+                let id = self.conn_of(conn);
+                self.inject(TransportEvent::DialFailure {
+                    connection_id: id,
+                    address,
+                    error: Self::dial_error(kind),
+                });
+                self.observe("-".into(), None)
+            }
+            ["ev", "pendingin", conn] => {
+                let id = self.conn_of(conn);
+                self.inject(TransportEvent::PendingInboundConnection { connection_id: id });
+                self.observe("-".into(), None)
+            }
+            ["ev", "closed", p, conn] => {
+                let Ok(p) = p.parse::<u64>() else { return "bad-op".into() };
+                let id = self.conn_of(conn);
+                let who = self.peer_of(p);
+                let tx = self.manager.as_ref().unwrap().event_tx.clone();
+                tx.try_send(TransportManagerEvent::ConnectionClosed { peer: who, connection: id })
+                    .expect("event channel");
+                self.observe("-".into(), None)
+            }
+            ["accepted", conn, how] => {
+                let id = self.conn_of(conn);
+                let sender =
+                    self.shared.lock().unwrap().accepts.get_mut(&id).and_then(|queue| queue.pop_front());
+                if let Some(sender) = sender {
+                    let _ = sender.send(if *how == "ok" { Ok(()) } else { Err(Error::EssentialTaskClosed) });
+                }
+                self.observe("-".into(), None)
+            }
+            _ => "bad-op".into(),
+        }
+    }
+}
